@@ -128,13 +128,13 @@ theorem blocking_points_offer_close :
 theorem select_inventory :
     (Gen.selects.filter fun s => s.fn ∈ ["fsm.run", "peer.run", "peer.sendTransitionToFSM", "peer.handleStateTransition",
         "peer.incomingConnection"]).map (fun s => (s.fn, s.cases)) =
-    [("fsm.run", ["send f.peer.getFSMTransitionCh(f)", "recv f.closeCh"]),
+    [("fsm.run", ["recv f.closeCh", "send f.peer.getFSMTransitionCh(f)"]),
      ("fsm.run", ["recv f.closeCh", "recv f.peer.getFSMTransitionCh(f)"]),
      ("fsm.run", ["recv f.closeCh", "send f.peer.getFSMErrorCh(f)"]),
-     ("peer.handleStateTransition", ["recv p.closeCh", "send p.fsms[other(i)].closeCh", "recv p.transitionCh[other(i)]"]),
+     ("peer.handleStateTransition", ["recv p.closeCh", "recv p.transitionCh[other(i)]", "send p.fsms[other(i)].closeCh"]),
      ("peer.incomingConnection", ["recv p.closeCh", "send p.inConnCh"]),
-     ("peer.run", ["recv p.closeCh", "recv p.startupDelayTimer.C", "recv p.errorCh[in]", "recv p.errorCh[out]",
-                   "recv p.transitionCh[in]", "recv p.transitionCh[out]", "recv p.inConnCh"]),
+     ("peer.run", ["recv p.closeCh", "recv p.errorCh[in]", "recv p.errorCh[out]", "recv p.inConnCh",
+                   "recv p.startupDelayTimer.C", "recv p.transitionCh[in]", "recv p.transitionCh[out]"]),
      ("peer.sendTransitionToFSM", ["recv p.closeCh", "send p.transitionCh[i]"])] := by decide
 
 end CoreBGP.Props.C10Own
